@@ -221,7 +221,7 @@ def invariant(R, mod, desc):
     for i, s in zip(mod.recordings.rec_index.tolist() if len(mod.recordings) else [], mod.recordings.state.tolist() if len(mod.recordings) else []):
         lim = n if s in comp_states else len(mod.edges)
         if s not in comp_states + edge_states and s in builtin_states:
-            # the state belonged to a channel that has been deleted: known finding N13
+            # the state belonged to a channel that has been deleted (N13, fixed: delete_channel removes such recordings)
             dangling = True
             R.known_confirmed.append("N13")
             R.spec_fail(dict(kind="dangling-reference-after-delete_channel", what="recordings"), f"recording ({i},{s}) survives the deletion of its channel", desc, None)
@@ -357,7 +357,7 @@ def run(args):
         R.evaluations += 1
         if alpha(mod) != a0:
             R.spec_fail(dict(kind="delete-does-not-undo-insert", chan=ch._name), f"insert({ch._name}); delete_channel({ch._name}) does not restore the tables", dict(kind=kind, rows=rows, present=[c._name for c in pre]), diff_summary(alpha(mod), a0))
-    # -------- witnesses of the open known findings N13 / N13b (replayed on every run)
+    # -------- witnesses of the fixed findings N13 / N13b (a regression is a violation)
     comp = jx.Compartment()
     w = jx.Cell([jx.Branch([comp] * 2)], parents=[-1])
     w.insert(HH()); w.record("HH_n", verbose=False); w.clamp("HH_m", jnp.ones(3) * 0.3, verbose=False); w.delete_channel(HH())
